@@ -51,12 +51,24 @@ class ShiftLsl(Constructor):
     patterns = {"shift_typ": 0, "shift_imm": n}
 
 
+class ShiftRightAmount(Transform):
+    """Amount of lsr and asr: 1 .. 32, where 32 is encoded as 0"""
+
+    def forwards(self, value):
+        if value not in range(1, 33):
+            raise ValueError(f"Invalid shift amount {value}")
+        return value % 32
+
+    def backwards(self, value):
+        return value or 32
+
+
 class ShiftLsr(Constructor):
     """Logical shift right n bits"""
 
     n = Operand("n", int)
     syntax = Syntax([",", " ", "lsr", " ", n])
-    patterns = {"shift_typ": 1, "shift_imm": n}
+    patterns = {"shift_typ": 1, "shift_imm": ShiftRightAmount(n)}
 
 
 class ShiftAsr(Constructor):
@@ -64,7 +76,7 @@ class ShiftAsr(Constructor):
 
     n = Operand("n", int)
     syntax = Syntax([",", " ", "asr", " ", n])
-    patterns = {"shift_typ": 2, "shift_imm": n}
+    patterns = {"shift_typ": 2, "shift_imm": ShiftRightAmount(n)}
 
 
 # Shift suffix:
